@@ -67,6 +67,7 @@ SYMBOLS: Dict[str, dict] = {
     # four parameters resolved from the context by ONE node (whatever lists them has 24 possible orders)
     "five_cfg": dict(node=_n("VFive", {"bias": 0.5}), kind="op", proc="VFive", params=[("factor", NODEF), ("addend", NODEF), ("offset", NODEF), ("gain", NODEF), ("bias", NODEF)],
                      cfg={"bias": 0.5}, reads=["factor", "addend", "offset", "gain"]),
+    "kwmix": dict(node=_n("VKwMix"), kind="op", proc="VKwMix", params=[("factor", 2.0), ("offset", NODEF)], cfg={}, reads=["factor", "offset"]),
     # keyword-only parameters (declared after a bare * in _process_logic) resolve like any other
     "kwmul": dict(node=_n("VKwMul"), kind="op", proc="VKwMul", params=[("factor", NODEF)], cfg={}, reads=["factor"]),
     "kwmul3": dict(node=_n("VKwMul", {"factor": 3.0}), kind="op", proc="VKwMul", params=[("factor", NODEF)], cfg={"factor": 3.0}, reads=["factor"]),
